@@ -24,7 +24,10 @@ Inductive op :=
 | OPublish (r : nat) (mh : hash)                         (* ToMultihash: writes the manifest block mh *)
 | OIter (r : nat) (o : iter_opts)                        (* read only *)
 | OAppendFail (r : nat) (payload : N) (pc : Z) (h : hash) (* an append during a store outage: the entry (CID h) is built, its block write refused *)
-| OFail (r : nat).                                       (* a publication during a store outage: the manifest write is refused *)
+| OFail (r : nat)                                        (* a publication during a store outage: the manifest write is refused *)
+| OOpen (src : nat) (keep : list hash) (key : N) (s : sortfn) (deny : list N).
+                                                         (* a new replica opened over a selection of replica src's entries (NewLog with
+                                                            LogOptions.Entries; the loaders after a complete or limited load), index = length s_logs *)
 
 Fixpoint set_nth {A} (n : nat) (x : A) (l : list A) : list A :=
   match n, l with
@@ -114,6 +117,11 @@ Definition step (s : sys) (o : op) : sys * opres :=
         end
       end
   | OFail _ => (s, ResNone RcErrOther)
+  | OOpen src keep key sf deny =>
+      match nth_error (s_logs s) src with
+      | None => (s, ResNone RcBadIndex)
+      | Some l => (mkSys (s_logs s ++ [open_from l keep key sf deny]) (s_univ s) (s_store s), ResNone RcOk)
+      end
   end.
 
 Definition run_from (s : sys) (ops : list op) : sys := fold_left (fun s o => fst (step s o)) ops s.
